@@ -602,6 +602,22 @@ func c20EndsRun(c c20EndsCase) Verdict {
 		}
 		go func() { serve2 <- r.Srv.Serve(nl) }()
 	}
+	// every accept loop is up (a Serve that has not got as far as registering
+	// its listener is not "serving" yet: Close would rightly not know it)
+	for deadline := time.Now().Add(harness.Watchdog); ; {
+		up := true
+		for _, l := range listeners {
+			up = up && l.Accepting()
+		}
+		if up {
+			break
+		}
+		if time.Now().After(deadline) {
+			r.ForceClose()
+			return Verdict{Inconclusive: "an accept loop did not come up"}
+		}
+		time.Sleep(50 * time.Microsecond)
+	}
 	var clients, servers []*harness.End
 	abortAll := func() {
 		for _, e := range clients {
